@@ -189,7 +189,7 @@ pub fn generate(r: &mut Rng, tier: Tier, group: u64) -> serde_json::Value {
         6 => "misc",
         _ => if tier == Tier::Thorough { "mutate" } else { "gitfaults" },
     };
-    let (actors, mut ops, _) = c02::gen_history(r, 5, 12);
+    let (actors, mut ops, _) = c02::gen_history_with(r, 5, 12, false);
     let mut degenerate = String::new();
     let mut commands = vec![];
     match mode {
@@ -233,7 +233,15 @@ pub fn generate(r: &mut Rng, tier: Tier, group: u64) -> serde_json::Value {
             if r.chance(1, 3) {
                 ops.push(Op::Dirty { kind: DirtyKind::Modified });
             }
-            commands.push(git_cmd(r));
+            // plain commands here: without template / prefix the shape of a correct stdout is known
+            // (one line, or one RON document), so anything extra on stdout is visible
+            for sub in ["version", "flow"] {
+                let mut argv: Vec<String> = vec![sub.to_string(), "-C".into(), "$REPO".into()];
+                if r.chance(1, 2) {
+                    argv.extend(["--output-format".into(), r.pick(&["semver", "pep440", "zerv"]).to_string()]);
+                }
+                commands.push(Cmd { argv, stdin: StdinSpec::Null, cwd: "/".into() });
+            }
         }
         _ => {
             commands.push(git_cmd(r));
